@@ -91,7 +91,9 @@ def programs(ctx, n_exhaustive, n_random):
     else:
         ctx.exhaustive['scope_nestings_x_binding_forms_x_reference_positions'] = len(ex)
     rnd = scopegen.random_programs(ctx.rng, n_random)
-    return ex + rnd
+    sib = scopegen.sibling_comprehension_programs()
+    ctx.exhaustive['sibling_comprehension_programs'] = len(sib)
+    return sib + ex + rnd
 
 
 def check_alpha(ctx, ident, src, oname, extra, prop_filter=None):
